@@ -233,3 +233,180 @@ Proof.
     rewrite Hsearch. cbn [ebind negb map is_last aaddrs astart]. change (blen (@nil Z)) with 0.
     rewrite Z.sub_0_r. destruct addr; reflexivity.
 Qed.
+
+(* ---------------------------------------------------------------- offsets outside-in = frame addresses inside-out *)
+Lemma astart_ctxA l : forall o R1 xo, astart o R1 l xo = o + blen R1 + blen (ctxA (rev l) xo).
+Proof.
+  induction l as [|f l IH]; intros o R1 xo; cbn [astart rev ctxA].
+  - change (blen (@nil Z)) with 0. lia.
+  - rewrite IH, ctxA_snoc, !blen_app. lia.
+Qed.
+
+Lemma aaddrs_frames l : forall o R1 xo tk,
+  rev (aaddrs o R1 l xo tk)
+  = (astart o R1 l xo - blen tk) :: map (fun a => o + blen R1 + Z.of_nat a) (frame_addrs (rev l) xo).
+Proof.
+  induction l as [|f l IH]; intros o R1 xo tk; cbn [aaddrs astart rev frame_addrs map].
+  - reflexivity.
+  - rewrite IH. rewrite frame_addrs_snoc, map_app, map_map. cbn [map]. rewrite <- app_comm_cons.
+    f_equal. rewrite Z.add_0_r. f_equal.
+    apply map_ext. intros a. rewrite !app_length, !Nat2Z.inj_add. unfold blen. lia.
+Qed.
+
+Lemma aaddrs_length l : forall o R1 xo tk, length (aaddrs o R1 l xo tk) = Datatypes.S (length l).
+Proof. induction l as [|f l IH]; intros; cbn [aaddrs length]; [reflexivity|]. rewrite IH. reflexivity. Qed.
+
+Lemma actx_length S ids : forall name fs R1 l R2 xo tk,
+  actx S name fs ids = Some (R1, l, R2, xo, tk) -> length ids = Datatypes.S (length l).
+Proof.
+  induction ids as [|id rest IH]; intros name fs R1 l R2 xo tk H; [discriminate|].
+  cbn [actx] in H. destruct (find_msg S name) as [md|]; [|discriminate].
+  destruct (find_field md id) as [fd|]; [|discriminate]. destruct (fd_label fd); try discriminate.
+  destruct rest as [|id2 rest].
+  - destruct (fsplit id fs) as [[[a v] b]|]; injection H as <- <- <- <- <-; reflexivity.
+  - destruct (fd_type fd) as [|name']; [discriminate|]. destruct (fsplit id fs) as [[[a v] b]|]; [|discriminate].
+    destruct v; try discriminate.
+    destruct (actx S name' fs0 (id2 :: rest)) as [[[[[R1' l'] R2'] xo'] tk']|] eqn:Hc; [|discriminate].
+    injection H as <- <- <- <- <-. specialize (IH _ _ _ _ _ _ _ Hc). cbn [length] in *. lia.
+Qed.
+
+Lemma levels_fields addr ids : length addr = length ids ->
+  levels addr (map PField ids) = rev (map (fun a => (a, PT_FIELD)) addr).
+Proof.
+  intros H. unfold levels. f_equal. revert ids H. induction addr as [|a r IH]; intros [|i ids] H; try discriminate; [reflexivity|].
+  cbn [map combine pt_of_step]. rewrite IH by (cbn in H; lia). reflexivity.
+Qed.
+
+(* ---------------------------------------------------------------- what the path means for the descriptor walks *)
+Lemma actx_atype S ids : forall name fs R1 l R2 xo tk,
+  actx S name fs ids = Some (R1, l, R2, xo, tk) ->
+  exists t, atype S name ids = Some t /\
+            path_type_lax S LSingular (TMsg name) (map PField ids) = Some (LSingular, t) /\
+            (exists d0, desc_by_path S (DMsg name) (removelast (map PField ids)) = Some d0) /\
+            last_step (map PField ids) = Some (PField (last ids 0)).
+Proof.
+  induction ids as [|id rest IH]; intros name fs R1 l R2 xo tk H; [discriminate|].
+  cbn [actx] in H. cbn [atype map path_type_lax].
+  destruct (find_msg S name) as [md|] eqn:Hm; [|discriminate]. cbn [resolve_field].
+  destruct (find_field md id) as [fd|] eqn:Hf; [|discriminate]. destruct (fd_label fd) eqn:Hl; try discriminate.
+  destruct rest as [|id2 rest].
+  - exists (fd_type fd). repeat split; try reflexivity. exists (DMsg name). reflexivity.
+  - destruct (fd_type fd) as [|name'] eqn:Ht; [discriminate|]. destruct (fsplit id fs) as [[[a v] b]|]; [|discriminate].
+    destruct v; try discriminate.
+    destruct (actx S name' fs0 (id2 :: rest)) as [[[[[R1' l'] R2'] xo'] tk']|] eqn:Hc; [|discriminate].
+    destruct (IH _ _ _ _ _ _ _ Hc) as (t & Ha & Hp & (d0 & Hd) & Hls).
+    exists t. split; [exact Ha|]. split; [exact Hp|]. split.
+    + exists d0. change (map PField (id2 :: rest)) with (PField id2 :: map PField rest) in *.
+      cbn [removelast desc_by_path]. rewrite Hm, Hf. unfold td_of_field. rewrite Hl, Ht. cbn [td_base]. exact Hd.
+    + unfold last_step in *. cbn [map last] in *. exact Hls.
+Qed.
+
+(* field numbers of the schema are legal protobuf field numbers *)
+Definition schema_ok (S : schema) : bool :=
+  forallb (fun md => forallb (fun fd => (1 <=? fd_num fd) && (fd_num fd <=? MAX_FIELD_NUMBER)) (md_fields md)) S.
+
+Lemma schema_ok_field S name md id fd : schema_ok S = true ->
+  find_msg S name = Some md -> find_field md id = Some fd -> 1 <= id <= MAX_FIELD_NUMBER.
+Proof.
+  intros Hs Hm Hf. unfold find_msg in Hm. apply find_some in Hm as [Hin _].
+  unfold find_field in Hf. apply find_some in Hf as [Hin2 He]. apply Z.eqb_eq in He. subst id.
+  unfold schema_ok in Hs. rewrite forallb_forall in Hs. specialize (Hs md Hin). rewrite forallb_forall in Hs.
+  specialize (Hs fd Hin2). apply andb_true_iff in Hs as [A B]. apply Z.leb_le in A, B. lia.
+Qed.
+
+(* a successful set carries a sub value that is well-formed for the declared type of the target *)
+Lemma pset_at_target S ids : forall name fs x v' e t,
+  schema_ok S = true ->
+  pset_at S LSingular (TMsg name) (VMsg fs) (map PField ids) x = Some (v', e) ->
+  atype S name ids = Some t ->
+  wf_fld S LSingular t x = true /\ 1 <= last ids 0 <= MAX_FIELD_NUMBER.
+Proof.
+  induction ids as [|id rest IH]; intros name fs x v' e t Hs Hp Ht; [discriminate|].
+  cbn [atype] in Ht. destruct (find_msg S name) as [md|] eqn:Hm; [|discriminate].
+  destruct (find_field md id) as [fd|] eqn:Hf; [|discriminate].
+  destruct (fd_label fd) eqn:Hl; try discriminate.
+  cbn [map] in Hp. rewrite (pset_at_msg_step S name md fs id _ x fd Hm Hf) in Hp.
+  destruct rest as [|id2 rest].
+  - injection Ht as <-. cbn [last]. split; [|eapply schema_ok_field; eassumption].
+    rewrite Hl in Hp. destruct (assoc_z (fd_num fd) fs); cbn [map pset_at] in Hp;
+      destruct (wf_fld S LSingular (fd_type fd) x); try discriminate; reflexivity.
+  - destruct (fd_type fd) as [|name'] eqn:Hty; [discriminate|].
+    destruct (assoc_z (fd_num fd) fs) as [child|]; [|discriminate].
+    rewrite Hl in Hp. change (map PField (id2 :: rest)) with (PField id2 :: map PField rest) in Hp.
+    destruct child as [| |fs'| |]; try (cbn [pset_at] in Hp; discriminate).
+    change (PField id2 :: map PField rest) with (map PField (id2 :: rest)) in Hp.
+    destruct (pset_at S LSingular (TMsg name') (VMsg fs') (map PField (id2 :: rest)) x) as [[c' e']|] eqn:Hpc; [|discriminate].
+    change (last (id :: id2 :: rest) 0) with (last (id2 :: rest) 0).
+    eapply IH; eassumption.
+Qed.
+
+(* ---------------------------------------------------------------- the complete coded SetByPath on field paths of any depth *)
+Theorem coded_set_refines_msgpath S root m ids x m' e R1 l R2 xo tk :
+  schema_ok S = true ->
+  wf_msg S root m = true -> blen (encode_msg m) < 2 ^ 63 ->
+  actx S root m ids = Some (R1, l, R2, xo, tk) ->
+  pset S root m (map PField ids) x = Some (m', e) ->
+  frames_okE (rev l) xo (new_bytes ids tk x) ->
+  coded_set all_fixes S root (encode_msg m) (map PField ids) (wenc_val (sval x)) = CRes 0 e (encode_msg m').
+Proof.
+  intros Hsc Hwf Hsz Hctx Hp Hok.
+  destruct (actx_atype S ids root m R1 l R2 xo tk Hctx) as (t & Hat & Hpt & (d0 & Hd) & Hls).
+  assert (Hpa : exists v' e', pset_at S LSingular (TMsg root) (VMsg m) (map PField ids) x = Some (v', e')).
+  { unfold pset in Hp. destruct (pset_at S LSingular (TMsg root) (VMsg m) (map PField ids) x) as [[v' e']|]; [|discriminate].
+    do 2 eexists. reflexivity. }
+  destruct Hpa as (v' & e' & Hpa).
+  destruct (pset_at_target S ids root m x v' e' t Hsc Hpa Hat) as [Hx Hidk].
+  destruct (nt_facts S _ _ Hx) as (Hnm & Hnl & Hwt).
+  pose proof (actx_length S ids root m R1 l R2 xo tk Hctx) as Hlen.
+  pose proof (splice_relen_refines_pset S root m ids x m' e R1 l R2 xo tk (astart 0 R1 l xo - blen tk) Hwf Hctx Hp Hok) as Hfin.
+  cbn zeta in Hfin. destruct Hfin as [Hfin He].
+  unfold coded_set. rewrite Hpt. unfold coded_set_t. rewrite Hpt, Hls.
+  assert (Hgw : get_by_path all_fixes S root (encode_msg m) (map PField ids)
+                = gwalk all_fixes S ([] ++ [] ++ wenc (msg_wire m) ++ []) (blen (@nil Z)) (DMsg root) true (map PField ids) []).
+  { unfold get_by_path. destruct ids; [discriminate|]. cbn [map app]. rewrite app_nil_r. reflexivity. }
+  rewrite Hgw.
+  rewrite (gwalk_msgs S ids root m R1 l R2 xo tk t true [] [] [] [] Hwf Hctx Hat).
+  - change (blen (@nil Z)) with 0. cbn [app Z.add].
+    assert (Hlv : levels (aaddrs 0 R1 l xo tk) (map PField ids)
+                  = (astart 0 R1 l xo - blen tk, PT_FIELD)
+                    :: map (fun a => (Z.of_nat (length R1 + a), PT_FIELD)) (frame_addrs (rev l) xo)).
+    { rewrite levels_fields by (rewrite aaddrs_length; lia).
+      rewrite <- map_rev, aaddrs_frames. cbn [map]. f_equal. rewrite map_map. apply map_ext.
+      intros a. f_equal. rewrite Nat2Z.inj_add. unfold blen. lia. }
+    assert (Es : Z.to_nat (astart 0 R1 l xo) = (length R1 + length (ctxA (rev l) xo))%nat)
+      by (rewrite astart_ctxA; unfold blen; lia).
+    destruct tk as [|tk0 tkr] eqn:Etk.
+    + (* absent: appended at the end of the innermost message *)
+      rewrite Hd. cbn [negb] in He. subst e.
+      unfold set_not_found. change (11 =? 11) with true. cbv iota.
+      unfold to_raw. rewrite Hnl, Hnm. cbn [orb]. rewrite Hwt, <- (sval_wt _ _ _ Hx).
+      pose proof (wt_of_wval_cases (sval x)) as Hc. unfold MAX_FIELD_NUMBER in Hidk.
+      rewrite Z.mod_small by (change (2 ^ 64) with 18446744073709551616; lia).
+      rewrite Hlv. change (blen (@nil Z)) with 0 in *. rewrite Z.sub_0_r in *.
+      unfold new_bytes, tagb in Hfin. cbn [fst snd] in Hfin.
+      assert (Exo : xo = []).
+      { clear -Hctx. revert root m R1 l R2 Hctx. induction ids as [|id rest IH]; intros; [discriminate|].
+        cbn [actx] in Hctx. destruct (find_msg S root) as [md|]; [|discriminate].
+        destruct (find_field md id) as [fd|]; [|discriminate]. destruct (fd_label fd); try discriminate.
+        destruct rest as [|id2 rest].
+        - destruct (fsplit id m) as [[[a v] b]|]; injection Hctx; intros; subst.
+          + exfalso. eapply tagb_nonnil. eassumption.
+          + reflexivity.
+        - destruct (fd_type fd) as [|name']; [discriminate|]. destruct (fsplit id m) as [[[a v] b]|]; [|discriminate].
+          destruct v; try discriminate.
+          destruct (actx S name' fs (id2 :: rest)) as [[[[[R1' l'] R2'] xo'] tk']|] eqn:Hc; [|discriminate].
+          injection Hctx; intros; subst. eapply IH. exact Hc. }
+      subst xo. cbn [length] in Hfin. rewrite Nat.add_0_r in Hfin.
+      rewrite Es. rewrite Hfin. reflexivity.
+    + (* present: the value is replaced *)
+      cbn [g_t g_start g_end].
+      rewrite Z.eqb_refl.
+      assert (Hnb : new_bytes ids (tk0 :: tkr) x = wenc_val (sval x)) by reflexivity.
+      rewrite Hnb in Hfin. cbn [negb] in He. subst e.
+      rewrite Hlv.
+      assert (Ee : Z.to_nat (astart 0 R1 l xo + blen xo) = (length R1 + length (ctxA (rev l) xo) + length xo)%nat)
+        by (rewrite astart_ctxA; unfold blen; lia).
+      rewrite Es, Ee. cbn [last_step]. rewrite Hfin. reflexivity.
+  - left. repeat split; reflexivity.
+  - cbn [app]. rewrite app_nil_r. exact Hsz.
+Qed.
